@@ -3,6 +3,7 @@ import json, os, shutil, tempfile
 import common
 
 KNOWN_TEXT = {
+    "vtable_types_without_methods": "vtable_types_without_methods: with --vtable-generation and a --generate list without `methods` the emitted `<Class>__bindgen_vtable` struct names the parameter / return types of the virtual methods, but the Method edges that lead to them are not followed (codegen_edges: Method => methods()), so the allow-listed output does not compile on its own",
     "synthetic_names_match": "synthetic_names_match: an allow-list type/item pattern also matches the synthetic name of an unnamed type item (ptr_struct_S, _bindgen_ty_id_N), making it a root, so declarations nothing allow-listed needs are emitted (e.g. --allowlist-type '[^n].*' emits struct nU); implementation sets equal the model's prediction",
     "blocklist_file_hides_namespace": "blocklist_file_hides_namespace: --blocklist-file blocklists the namespace item first opened in that file, so allow-listed declarations of the same namespace made in other files are not generated",
     "anon_type_renumbered": "anon_type_renumbered: an anonymous type is numbered _bindgen_ty_N by the order in which names are first requested, which the allow-list root filter changes; the allow-listed item differs from the full bindings only in that number",
